@@ -15,7 +15,12 @@
 (*     TLC's Json module) holds start_codons, stop_codons and amino_acids    *)
 (*     [letter, codons [triplet, weight]] with the table's assignment and    *)
 (*     weights w; reading it back gives the same table                       *)
-EXTENDS PolyJson, CodonTables, Sequences, Json, CSV, IOUtils
+(*  [k|->"cliconvert", o, inputs, paths, after]   `poly convert -o o inputs` run in a scratch directory *)
+(*     after[i] says what paths[i] holds afterwards (see Cli!ConvertOK)                                  *)
+(*  [k|->"clihash", inputs, lines, libhash]        `poly hash inputs`: lines = [hash, path] pairs       *)
+(*  [k|->"clipipe", what, same]                    pipe mode output equals the composition of the       *)
+(*     library calls the command stands for                                                             *)
+EXTENDS PolyJson, CodonTables, Cli, Sequences, Json, CSV, IOUtils
 Trace == ndJsonDeserialize(IOEnv.TRACEFILE)
 VARIABLES l
 RandAlphabet == {SubSeq("ACDEFGHIJLMNPQRSTVWY", i, i) : i \in 1..20}
@@ -37,6 +42,13 @@ Judge(e) ==
            ELSE IF \E i \in 2..e.len - 1 : SubSeq(e.p, i, i) \notin RandAlphabet THEN "random protein uses a letter outside the generator's alphabet"
            ELSE IF e.again # e.p THEN "the same seed gave two different proteins"
            ELSE "ok"
+      [] e.k = "cliconvert" ->
+           IF ConvertOK(RangeOf(e.paths), RangeOf(e.inputs), e.o, [q \in RangeOf(e.paths) |-> e.after[CHOOSE i \in 1..Len(e.paths) : e.paths[i] = q]])
+           THEN "ok" ELSE "poly convert: an output file is missing, holds something else than the conversion of its input, or another file was touched"
+      [] e.k = "clihash" ->
+           IF {<<e.lines[i][2], e.lines[i][1]>> : i \in 1..Len(e.lines)} = {<<e.inputs[i], e.libhash[i]>> : i \in 1..Len(e.inputs)} /\ Len(e.lines) = Len(e.inputs)
+           THEN "ok" ELSE "poly hash: not exactly one '<seqhash>  <path>' line per input file"
+      [] e.k = "clipipe" -> IF e.same THEN "ok" ELSE "poly " \o e.what \o " (pipe mode) differs from the composition of the library calls"
       [] e.k = "codonjson" ->
            LET want == [c \in Codons |-> <<Code[e.id][c], FromSparse(e.w)[c]>>] IN
            IF TableOf(e.json) # want \/ RangeOf(e.json.start_codons) # Starts[e.id] \/ RangeOf(e.json.stop_codons) # Stops[e.id]
